@@ -205,7 +205,15 @@ static int op_pwdrecrypt(int argc, char **argv, FILE *out) {
     nsalt = hx(argv[6], &lnsalt);
     if (lp < 0 || lp > 255 || loa != 16 || lna != 16)
         return 0;
-    r = pwdrecrypt(p, (uint8_t)lp, os, los, ns, lns, oa, na, losalt ? osalt : NULL, losalt, lnsalt ? nsalt : NULL, lnsalt);
+    {
+        static uint8_t osbuf[256], nsbuf[256]; /* (as in msmpprecrypt below: the secrets' storage is reused from call to call) */
+        if (los >= 0 && los <= 256 && lns >= 0 && lns <= 256) {
+            memcpy(osbuf, os, los);
+            memcpy(nsbuf, ns, lns);
+            r = pwdrecrypt(p, (uint8_t)lp, osbuf, los, nsbuf, lns, oa, na, losalt ? osalt : NULL, losalt, lnsalt ? nsalt : NULL, lnsalt);
+        } else
+            r = pwdrecrypt(p, (uint8_t)lp, os, los, ns, lns, oa, na, losalt ? osalt : NULL, losalt, lnsalt ? nsalt : NULL, lnsalt);
+    }
     if (r) {
         fputs("ok ", out);
         puthex(out, p, lp);
@@ -228,7 +236,17 @@ static int op_msmpprecrypt(int argc, char **argv, FILE *out) {
     na = hx(argv[4], &lna);
     if (lp < 0 || lp > 255 || loa != 16 || lna != 16)
         return 0;
-    r = msmpprecrypt(p, (uint8_t)lp, os, los, ns, lns, oa, na);
+    {
+        /* the secrets live where the previous call's secrets lived (configurations come and go: a block's secret is freed, the next
+           block's secret of that length gets the same storage): what the functions compute depends on the octets, not on where they are */
+        static uint8_t osbuf[256], nsbuf[256];
+        if (los >= 0 && los <= 256 && lns >= 0 && lns <= 256) {
+            memcpy(osbuf, os, los);
+            memcpy(nsbuf, ns, lns);
+            r = msmpprecrypt(p, (uint8_t)lp, osbuf, los, nsbuf, lns, oa, na);
+        } else
+            r = msmpprecrypt(p, (uint8_t)lp, os, los, ns, lns, oa, na);
+    }
     if (r) {
         fputs("ok ", out);
         puthex(out, p, lp);
